@@ -236,3 +236,21 @@ B('pkgL_b_pump_object_rebinds_attribute', ['C20'], 'R20.e',
        "                self.files = literal_eval(line_text[len(_MON_PREFIX):])\n            else:\n"
        "                sys.stderr.write(line_text)\n                self.buff.append(line_text)\n\n\n"
        "def restart_with_reloader(error_func=None):\n"))
+_ATTEMPT = ("def _attempt(func, default):\n    try:\n        return func()\n    except BaseException:\n        return default\n\n\n"
+            "def get_flaw_info(tb_str,")
+T('pkgL_t_callable_run_under_catch_all', ['C20'],
+  (FL, _TRY, "    parsed_error = _attempt(lambda: _ParsedTB.from_string(traceback_string).to_dict(), {})\n"),
+  (FL, _LAST, "    last_line = _attempt(lambda: tb_str.splitlines()[-1], u'Unknown error')\n"),
+  (FL, "def get_flaw_info(tb_str,", _ATTEMPT))
+B('pkgL_b_callable_runner_lets_errors_out', ['C20'], 'R20.b',
+  (FL, _TRY, "    parsed_error = _attempt(lambda: _ParsedTB.from_string(traceback_string).to_dict(), {})\n"),
+  (FL, "def get_flaw_info(tb_str,", _ATTEMPT.replace('except BaseException:', 'except ValueError:')))
+_ATTEMPT_ARGS = ("def _attempt(func, *args, **kwargs):\n    default = kwargs.pop('default', None)\n    try:\n        return func(*args)\n"
+                 "    except BaseException:\n        return default\n\n\ndef get_flaw_info(tb_str,")
+T('pkgL_t_callable_runner_with_star_args', ['C20'],
+  (FL, _TRY, "    parsed_error = _attempt(lambda: _ParsedTB.from_string(traceback_string).to_dict(), default={})\n"),
+  (FL, _LAST, "    last_line = _attempt(lambda text: text.splitlines()[-1], tb_str, default=u'Unknown error')\n"),
+  (FL, "def get_flaw_info(tb_str,", _ATTEMPT_ARGS))
+B('pkgL_b_callable_runner_with_star_args_leaks', ['C20'], 'R20.b',
+  (FL, _TRY, "    parsed_error = _attempt(lambda: _ParsedTB.from_string(traceback_string).to_dict(), default={})\n"),
+  (FL, "def get_flaw_info(tb_str,", _ATTEMPT_ARGS.replace('except BaseException:', 'except (ValueError, IndexError):')))
